@@ -52,7 +52,7 @@ def main():
         if os.path.exists(x): os.unlink(x)
         det = {}
         for p in props:
-            r = sh(["/verif/check", p, "--tier", tier], cwd="/verif", env=dict(os.environ, CCT_REPO=wt), timeout=3600)
+            r = sh([os.path.join(os.path.dirname(os.path.dirname(os.path.abspath(__file__))), "check"), p, "--tier", tier], env=dict(os.environ, CCT_REPO=wt), timeout=3600)
             line = [l for l in r.stdout.split("\n") if l.startswith("VIOLATION")]
             det[p] = {"rc": r.returncode, "line": line[0][:160] if line else ""}
             if r.returncode == 1 and line:
